@@ -179,6 +179,35 @@ def run_iterproto(prog, ctx=None):
         ok = ("neg" in signs and ("zero" in signs or "var" in signs)) or signs == {"var"}
         res.ob(key + ":advance-outcomes", ok, adv, adv.line,
                "" if ok else "advance() can only return %s: the documented loop needs a negative result past the end and 0 after the last element" % sorted(signs))
+        # the end of the sequence is recorded: every way to `return 0` (last element consumed) passes a store into the
+        # iterator object; a return that leaves the state as it was is reported again and again by the next calls
+        store_blocks = set()
+        for bid, blk in adv.blocks.items():
+            for e in blk.el:
+                for nn in walk_own(e):
+                    t = None
+                    if nn.get("k") == "bin" and nn.get("op", "").endswith("=") and nn["op"] not in ("==", "!=", "<=", ">="):
+                        t = strip(nn["a"], lvalue_to_rvalue=False)
+                    elif nn.get("k") == "un" and nn.get("op") in ("++", "--"):
+                        t = strip(nn["e"], lvalue_to_rvalue=False)
+                    while t is not None and t.get("k") == "mem":
+                        if t.get("arrow"):
+                            store_blocks.add(bid)
+                            break
+                        t = strip(t["b"], lvalue_to_rvalue=False)
+                if e.get("k") == "call" and e.get("fn", {}).get("inroot"):
+                    # a helper that is handed the object (or a member's address) counts as a store
+                    store_blocks.add(bid)
+        zero_rets = []
+        for (bid, idx), pre in an.pre.items():
+            el = adv.blocks[bid].el[idx]
+            if el.get("k") == "ret" and el.get("e") is not None and cval(el["e"]) == 0:
+                zero_rets.append((bid, el))
+        for bid, el in zero_rets:
+            reach = {adv.entry} | set(adv.reachable_from(adv.entry, avoid=store_blocks)) if adv.entry not in store_blocks else set()
+            ok = bid in store_blocks or bid not in reach
+            res.ob(key + ":end-recorded line %s" % (el.get("l", 0) - adv.line), ok, adv, el.get("l", adv.line),
+                   "" if ok else "advance() can reach `return 0` (no further element) without having stored anything in the iterator: the next call finds the same state and cannot report the end")
         # reset restores what advance changes
         ar, aw = obj_fields(adv)
         rr, rw = obj_fields(rst)
